@@ -57,7 +57,8 @@ SpecSound(v) ==
         \A g1 \in PlugsInd2 : \A g2 \in PlugsInd2 : StepSound(<<Pat(g2), Pat(g1), Prf(v)>>, ins)
 CheckCase(i) ==
   LET v == Cases[i] IN
-  IF ~ValidSchemaU(v, {}, IU) THEN ""
+  \* only well-formed terms can stand on the machine's stack (a mu over an unconstrained metavariable cannot be built)
+  IF ~WFDeep(v) \/ ~ValidSchemaU(v, {}, IU) THEN ""
   ELSE IF PrintT("VALID " \o ToJson(v)) /\ SpecSound(v) THEN "" ELSE "spec-unsound"
 INSTANCE TraceBlocks WITH NCases <- Len(Cases), Check <- CheckCase
 =============================================================================
